@@ -407,7 +407,10 @@ E5DIR = os.path.join(C.VERIF, "e5")
 
 
 def _e5_key():
-    return C.tree_hash([E5DIR], "e5")
+    return C.tree_hash([E5DIR, os.path.join(C.VERIF, "lib", "gen_args.py"),
+                        os.path.join(C.VERIF, "lib", "gen_vptr.py")]
+                       if os.path.exists(os.path.join(C.VERIF, "lib", "gen_vptr.py"))
+                       else [E5DIR, os.path.join(C.VERIF, "lib", "gen_args.py")], "e5")
 
 
 def _compile_variant(src, name, defs, opt="-O0", timeout=3000, extra=()):
@@ -518,7 +521,8 @@ def c20(res, tier, deadline):
                 "combinations marked not_defined is a distinct instantiation (method + definition "
                 "template) in a generated program; large products on both sides of the 512 split "
                 "(511, 512, 513, 529 = 23x23, 1025 in thorough; 529 in quick) under patterns "
-                "{none, first, last, middle, checkerboard, one row, one column, all}. Checked at "
+                "{none, first, last, middle, checkerboard, one row, one column, all}; the not_defined "
+                "mark is a direct, indirect, repeated (two sub-objects) or private base. Checked at "
                 "run time in each program: the multiset of parameter-class tuples found in the "
                 "method's definition catalog equals the defined combinations (+ the catch-all); "
                 "after update every combination reaches its own definition (or the catch-all when "
@@ -532,6 +536,12 @@ def c20(res, tier, deadline):
             variants.append(("ud_%d_%d_%d_%d" % (a, b, c_, hm),
                              ["UD_L1=%d" % a, "UD_L2=%d" % b, "UD_L3=%d" % c_, "HASMETHOD=%d" % hm],
                              "lists %dx%dx%d method_member=%d all subsets" % (a, b, c_, hm)))
+    for style in (1, 2, 3):
+        for (a, b, c_) in ((2, 2, 0), (3, 0, 0), (1, 2, 3)):
+            variants.append(("ud_%d_%d_%d_s%d" % (a, b, c_, style),
+                             ["UD_L1=%d" % a, "UD_L2=%d" % b, "UD_L3=%d" % c_, "HASMETHOD=%d" % (style % 2),
+                              "MARKSTYLE=%d" % style],
+                             "lists %dx%dx%d mark_style=%d all subsets" % (a, b, c_, style)))
     large = [(23, 23)] if tier == "quick" else [(7, 73), (16, 32), (19, 27), (23, 23), (25, 41)]
     patterns = [0, 7, 4] if tier == "quick" else [0, 1, 2, 3, 4, 5, 6, 7]
     for (a, b) in large:
@@ -553,7 +563,166 @@ def c20(res, tier, deadline):
     _triage_family(res, "usedefs.cpp", cands)
 
 
+def _gen_family(res, tus, extra_flags=(), compile_failure_is_violation=False, variant_tag=""):
+    """tus: list of (name, source text, case descriptions): writes, compiles
+    and runs generated translation units"""
+    d = os.path.join(C.build_dir(_e5_key()), "gen")
+    os.makedirs(d, exist_ok=True)
+    cands, samples, sums = [], [], []
+
+    def one(tu):
+        name, src, descs = tu
+        path = os.path.join(d, name + variant_tag + ".cpp")
+        exe = os.path.join(d, name + variant_tag)
+        if not os.path.exists(exe):
+            with open(path, "w") as fh:
+                fh.write(src)
+            cmd = [small.CXX, "-std=c++17", "-O0", "-w", "-D" + C.GUARD, "-I" + C.INCLUDE, "-I" + E5DIR] + \
+                list(extra_flags) + [path, "-o", exe + ".tmp"]
+            rc, so, se = C.run_cmd(cmd, timeout=3000)
+            if rc:
+                return tu, None, se[-2500:], 0
+            os.replace(exe + ".tmp", exe)
+        rc, so, se, dt = small.run(exe, [], timeout=600)
+        return tu, (rc, so, se), "", dt
+
+    with cf.ThreadPoolExecutor(max_workers=C.NCPU) as ex:
+        for tu, r, err, dt in ex.map(one, tus):
+            name, src, descs = tu
+            if r is None:
+                if compile_failure_is_violation:
+                    cands.append({"case": name, "kind": "does_not_compile", "detail": err[-800:], "tu": name + variant_tag})
+                else:
+                    res.harness_errors.append("generated program %s does not compile against %s:\n%s" % (name, C.INCLUDE, err))
+                continue
+            rc, so, se = r
+            c, s, summ = small.parse(so)
+            for x in c:
+                x["tu"] = name + variant_tag
+            if rc != 0 or summ is None:
+                cands.append({"case": name + " (" + descs[0] + " ...)", "kind": "crash", "tu": name + variant_tag,
+                              "detail": "program ended with %s: %s" % (small.sig_name(rc), (se or so)[-300:])})
+            else:
+                sums.append(summ)
+            cands += c
+            samples += s
+    return cands, samples, sums, d
+
+
+def _triage_gen(res, cands, d):
+    known = C.load_known()
+    seen = set()
+    for c in cands:
+        c["engine"] = "E5GEN"
+        k = C.match_known(known, res.prop, c)
+        if k is not None:
+            res.known_hits.setdefault(k["id"], (k, c))
+            continue
+        key_ = c["case"] + "|" + c["detail"][:60]
+        if key_ in seen or len(res.confirmed) >= 30:
+            continue
+        seen.add(key_)
+        exe = os.path.join(d, c["tu"])
+        if c.get("kind") == "does_not_compile" or not os.path.exists(exe):
+            res.confirmed.append(c)
+            continue
+        rc, so, se, dt = small.run(exe, [], timeout=600)
+        again = [x for x in small.parse(so)[0] if x["case"] == c["case"] and x["detail"] == c["detail"]]
+        if again or (rc != 0 and c.get("kind") == "crash"):
+            c["exe"] = exe
+            res.confirmed.append(c)
+        else:
+            res.harness_errors.append("candidate did not reproduce: %s :: %s" % (c["case"], c["detail"][:200]))
+
+
+@check("C11")
+def c11(res, tier, deadline):
+    from . import gen_args
+    res.rule = ("generated programs using the macro front end (declare_method / define_method): "
+                "F1 = every parameter kind {T&, const T&, T&&, T*, shared_ptr<T>, const shared_ptr<T>&, "
+                "virtual_ptr<T>, virtual_shared_ptr<T>} x inheritance shape between the method's and "
+                "the definition's class {same, single, second base at an offset, virtual base, two "
+                "levels with offsets} x position of the virtual parameter among three; F2 = every "
+                "non-virtual companion category {int, tracked by value from rvalue / xvalue / lvalue, "
+                "T&, const T&, T&&, move-only by && and by value} x position x return kind {int, void, "
+                "reference, object by value}; F3 = smart-pointer / virtual_ptr kinds with tracked "
+                "companions. Each method is called with objects of two different most-derived layouts "
+                "(1, 2, 1 again). Inside the definition: address of the received sub-object vs the "
+                "language's own conversion, most-derived object identity, shared ownership and "
+                "reference count restoration, aliasing of reference parameters, values, copy / move "
+                "counters (0 copies and <= 1 move for an rvalue). Built against the release and the "
+                "debug default policy.")
+    res.assumptions = ["a finite grammar of programs; volatile, unique_ptr virtual parameters, user smart pointers are outside it",
+                       "expected addresses come from the language's implicit conversions inside the same program"]
+    tus = gen_args.translation_units(tier)
+    allc, alls = [], []
+    d = None
+    for tag, flags in (("_rel", ["-DNDEBUG"]), ("_dbg", [])):
+        cands, samples, sums, d = _gen_family(res, tus, extra_flags=flags, variant_tag=tag)
+        for s in sums:
+            res.states += s["cases"]
+            res.traces += s["cases"]
+            res.nontrivial += s["nontrivial"]
+            res.transitions += s["facts"]
+        for c in cands:
+            c["case"] = c["case"] + " policy=" + tag[1:]
+        allc += cands
+        alls += samples
+    res.extra["programs"] = 2 * len(tus)
+    res.extra["methods_generated"] = sum(len(t[2]) for t in tus)
+    res.bounds.append({"run": "args family " + tier, "complete": True,
+                       "counters": {"translation_units": 2 * len(tus), "method_cases": res.states}})
+    res.samples = alls[:8]
+    # the candidate's own case text was extended: compare on the original
+    for c in allc:
+        c["orig_case"] = c["case"].rsplit(" policy=", 1)[0]
+    known = C.load_known()
+    seen = set()
+    for c in allc:
+        c["engine"] = "E5GEN"
+        k = C.match_known(known, res.prop, c)
+        if k is not None:
+            res.known_hits.setdefault(k["id"], (k, c))
+            continue
+        key_ = c["case"] + "|" + c["detail"][:60]
+        if key_ in seen or len(res.confirmed) >= 30:
+            continue
+        seen.add(key_)
+        exe = os.path.join(d, c["tu"])
+        if c.get("kind") == "does_not_compile" or not os.path.exists(exe):
+            res.confirmed.append(c)
+            continue
+        rc, so, se, dt = small.run(exe, [], timeout=600)
+        again = [x for x in small.parse(so)[0] if x["case"] == c["orig_case"] and x["detail"] == c["detail"]]
+        if again or (rc != 0 and c.get("kind") == "crash"):
+            c["exe"] = exe
+            res.confirmed.append(c)
+        else:
+            res.harness_errors.append("candidate did not reproduce: %s :: %s" % (c["case"], c["detail"][:200]))
+
+
 def replay(prop, cand, path):
+    if cand.get("engine") == "E5GEN":
+        # regenerate and rebuild the family member, run it again
+        res = C.Result(prop, "quick")
+        CHECKS_FN = {"C11": c11}
+        exe = cand.get("exe")
+        tu = cand.get("tu", "")
+        if prop == "C11":
+            from . import gen_args
+            tier = "thorough" if "_thorough_" in tu else "quick"
+            tus = [t for t in gen_args.translation_units(tier) if tu.startswith(t[0])]
+            flags = ["-DNDEBUG"] if tu.endswith("_rel") else []
+            cands, samples, sums, d = _gen_family(res, tus, extra_flags=flags, variant_tag=tu[-4:])
+            hit = [x for x in cands if x["detail"] == cand["detail"] and x["case"] == cand.get("orig_case")]
+            for x in cands[:5]:
+                print("CAND", x["case"], x["detail"])
+            if hit or any(x.get("kind") in ("crash", "does_not_compile") for x in cands):
+                print("VIOLATION property=%s replay=%s" % (prop, path))
+                return 1
+            print("not reproduced: property holds on this program")
+            return 0
+        return engines_replay_gen(prop, cand, path)
     if cand.get("engine") == "E5":
         name, defs = cand["variant"]
         binary, err = _compile_variant(cand["src"], name, defs)
